@@ -127,10 +127,23 @@ _F2 = lambda e: {**e, 'y': e['y'] * e['y'], 'z': e['h'] + 1}               # noq
 _G = lambda e: {**e, 'w': e.get('w', e['x']) * 2 + 1}                    # noqa: E731  (applied twice: w = 4x + 3)
 
 
-def _preprocessor(case):
+class _Flaky:
+  """Identity batch function that raises RuntimeError exactly once, on its j-th call."""
+
+  def __init__(self, j):
+    self.j, self.calls = j, 0
+
+  def __call__(self, e):
+    self.calls += 1
+    if self.calls == self.j:
+      raise RuntimeError('flaky preprocessor')
+    return e
+
+
+def _preprocessor(case, flaky=None):
   """The chain of `chain` functions, delivered as list / tuple / generator / iter(list) / built with append()."""
   import fedjax
-  fns = [_F1, _F2, _G, _G][:case['chain'] + (case['chain'] == 3)]
+  fns = [_F1, _F2, _G, _G][:case['chain'] + (case['chain'] == 3)] + ([flaky] if flaky else [])
   form = (case.get('deliv', 0) // 3) % 5
   if form == 0:
     return fedjax.BatchPreprocessor(fns), fns
@@ -203,7 +216,7 @@ def _bf16():
 _BIG = (1 << 24) + 1      # int32 values that float32 cannot represent
 
 
-def _dataset(case):
+def _dataset(case, flaky=None):
   """Returns (dataset under test, arrays of the dataset it was built from, the mapping
   handed to the constructor).  With a `slice` the dataset under test is parent[a:b:c] of a
   parent with `slice[0]` rows.  The mapping is a dict / OrderedDict / read-only mappingproxy."""
@@ -228,7 +241,7 @@ def _dataset(case):
       'nanf': _nanf(np.arange(n)),       # NaN / +inf / -inf / -0.0 on REAL rows
   }
   ex = {k: _layout(v, case.get('layout', 0)) for k, v in ex.items()}
-  pre, _ = _preprocessor(case)
+  pre, _ = _preprocessor(case, flaky)
   form = (case.get('deliv', 0) // 15) % 3
   given = ex if form == 0 else collections.OrderedDict(ex) if form == 1 else types.MappingProxyType(ex)
   ds = fedjax.ClientDataset(given, pre)
@@ -424,6 +437,70 @@ def _oracle_pick_sweep(case, obs):
   return []
 
 
+ABANDON = ['peek', 'break-after-1', 'break-after-k', 'close', 'raise-on-call-1', 'raise-on-call-2', 'two-abandons',
+           'abandon-then-interleave']
+
+
+def _abandon(view, how, k):
+  """A first use of `view` that is abandoned early."""
+  import itertools
+  if how == 'peek':
+    next(iter(view), None)
+  elif how in ('break-after-1', 'break-after-k'):
+    stop = 1 if how == 'break-after-1' else k
+    for i, _ in enumerate(view):
+      if i + 1 >= stop:
+        break
+  elif how == 'close':
+    it = iter(view)
+    next(it, None)
+    it.close()
+  elif how in ('raise-on-call-1', 'raise-on-call-2'):
+    try:
+      for _ in view:          # the dataset's flaky preprocessor raises on its 1st / 2nd call
+        pass
+    except RuntimeError:
+      pass
+  elif how == 'two-abandons':
+    next(iter(view), None)
+    list(itertools.islice(iter(view), k))
+  elif how == 'abandon-then-interleave':
+    next(iter(view), None)
+
+
+def _abandoned_ok(case, plain, drop, pad):
+  """Error recovery / abandoned passes (round 6): a FRESH view whose first use is abandoned after 0, 1, k
+  batches (peek, break, generator close, an exception of the preprocessor caught by the caller, twice in a
+  row, followed by interleaving) must afterwards give a complete pass equal to an undisturbed view's pass.
+  Two scenarios per case (rotating with `deliv`), on the plain, drop_remainder and padded views."""
+  ok = True
+  refs = (plain, drop, pad)
+  for j in range(2):
+    how = ABANDON[(case.get('deliv', 0) + 4 * j + case['bs']) % len(ABANDON)]
+    flaky = _Flaky(1 if how == 'raise-on-call-1' else 2) if how.startswith('raise') else None
+    ds, _, _ = _dataset(case, flaky)
+    views = _views(ds, case)[:3]
+    for v, ref in zip(views, refs):
+      if flaky:
+        flaky.calls, flaky.j = 0, (1 if how == 'raise-on-call-1' else 2)
+      _abandon(v, how, max(len(ref) // 2, 1))
+      if flaky:
+        flaky.j = -1          # disarmed: it raised (or the pass was too short to reach its j-th call)
+      if how == 'abandon-then-interleave':
+        z = list(zip(v, v))
+        ok &= _same([dict(a) for a, _ in z], ref) and _same([dict(b) for _, b in z], ref)
+      ok &= _same(_batches(v), ref)
+    if flaky:       # the dataset entry point itself: all_examples after a caught exception
+      flaky.calls, flaky.j = 0, 1
+      try:
+        ds.all_examples()
+        ok = False
+      except RuntimeError:
+        pass
+      ok &= ds.all_examples()['x'].tolist() == _rows(case)
+  return bool(ok)
+
+
 def _sentinel_ok(case):
   """A user feature named like the internal mask key is an ordinary feature for batch() / all_examples()."""
   import fedjax
@@ -509,6 +586,7 @@ def run(case):
       'padded': [[b['x'].tolist(), [bool(t) for t in b[M].tolist()]] if M in b else [b['x'].tolist(), []] for b in pad],
       'again': bool(again), 'mutated': bool(mutated), 'features_ok': bool(feat_ok), 'feature_faults': sorted(why),
       'interleaved': bool(inter), 'hidden': bool(hidden), 'kept': bool(kept), 'container': bool(container),
+      'abandoned': _abandoned_ok(case, plain, drop, pad),
       'helpers': _helpers_ok(ds, case), 'sentinel': _sentinel_ok(case) if case.get('deliv', 0) % 4 == 0 else True,
   }
 
@@ -647,6 +725,9 @@ def oracle(case, obs):
   if not obs.get('container', True):
     out.append(('container', 'the raw_examples mapping (keys / array identities), an hparams object or the function '
                 'container handed in was changed'))
+  if not obs.get('abandoned', True):
+    out.append(('abandoned-pass', 'after a first use that was abandoned early (peek / break / close / a caught exception of the '
+                'preprocessor / twice / followed by interleaving) a complete pass over the same view differs from an undisturbed pass'))
   if not obs.get('sentinel', True):
     out.append(('sentinel-feature', 'a user feature named like the internal mask key is not carried through batch() / all_examples() as an ordinary feature'))
   if not obs.get('helpers', True):
@@ -695,6 +776,7 @@ def describe(case, obs):
           'scalars': ['int', 'np.int64', '0-d array'][case.get('deliv', 0) % 3],
           'fns_as': ['list', 'tuple', 'generator', 'iter', 'append'][(case.get('deliv', 0) // 3) % 5],
           'mapping': ['dict', 'OrderedDict', 'mappingproxy'][(case.get('deliv', 0) // 15) % 3],
+          'abandon': ABANDON[(case.get('deliv', 0) + case['bs']) % len(ABANDON)],
           'slice': kind + ('+nested' if case.get('slice2') else ''), 'layout': LAYOUTS[case.get('layout', 0)],
           'theorem_hypotheses': 'hold (bs >= 1, per-example chain)' if bs >= 1 else 'bs < 1'}
 
